@@ -139,3 +139,7 @@ Definition is_digit (c : char) : bool := (48 <=? c) && (c <=? 57).
 
 Fixpoint digits_val (acc : N) (s : str) : N :=
   match s with [] => acc | c :: r => digits_val (10 * acc + (c - 48)) r end.
+
+(* keeps nat, N, Z, res and exn in every extracted model so that the shared OCaml glue (conv.ml) always finds them *)
+Definition base_witness (n : nat) (a : N) (z : Z) (e : exn) : res (nat * N * Z) :=
+  if exn_eqb e ValueError then Ok (n, a, z) else Err e.
